@@ -810,6 +810,25 @@ def _check_sort_relabel(ctx, fi: FuncInfo, res: RuleResult):
         class _N:   # stand-in for the site reported
             node = fn
         rel = [_N]
+    # direction of the renaming: old label -> its rank (the k-th label in sorted order becomes k), not rank -> label
+    if hasattr(rel[0], "kind") and len(rel[0].node.args) >= 2:
+        mp = rel[0].node.args[1]
+        if isinstance(mp, ast.Name):
+            mp = single_def(fn, mp.id) or mp
+        if isinstance(mp, ast.Call) and isinstance(mp.func, ast.Name) and mp.func.id == "dict" and len(mp.args) == 1 and isinstance(mp.args[0], ast.Call) \
+                and isinstance(mp.args[0].func, ast.Name) and mp.args[0].func.id == "zip" and len(mp.args[0].args) == 2:
+            def is_ranks(e_):
+                while isinstance(e_, ast.Call) and isinstance(e_.func, ast.Name) and e_.func.id in ("list", "tuple") and e_.args:
+                    e_ = e_.args[0]
+                return isinstance(e_, ast.Call) and norm(e_.func) in ("range", "count", "itertools.count")
+            a_, b_ = mp.args[0].args
+            if is_ranks(a_) != is_ranks(b_):
+                good = is_ranks(b_)
+                res.inst(fi.fq, f"renaming `{short(mp, 60)}` takes a label to its rank", "ok" if good else "fail")
+                if not good:
+                    res.fail(Finding("R-CODEC", fi.module.rel, fi.qualname, norm(mp),
+                                     "the renaming maps rank -> label instead of label -> rank: relabel_nodes then gives atom k the label of the atom that ranks k-th (the inverse "
+                                     "permutation), so the atoms are not numbered in sorted order", line=mp.lineno))
     srt = [n for n in own_walk(fn) if isinstance(n, ast.Call) and isinstance(n.func, ast.Name) and n.func.id == "sorted"]
     ok = False
     why = "no sorted(...) of (key, atom) pairs"
